@@ -1095,9 +1095,16 @@ func compareHash(a *SexpHash, bs Sexp) (int, error) {
 }
 
 func (p *SexpHash) CopyMap() *map[int][]*SexpPair {
+	// the buckets too: HashSet replaces the pair of an existing key
+	// in place, so two hashes that shared a bucket slice saw each
+	// other's updates (but not each other's inserts and deletes).
 	cp := make(map[int][]*SexpPair)
 	for k, v := range p.Map {
-		cp[k] = v
+		bucket := make([]*SexpPair, len(v))
+		for i, pair := range v {
+			bucket[i] = Cons(pair.Head, pair.Tail)
+		}
+		cp[k] = bucket
 	}
 	return &cp
 }
@@ -1109,7 +1116,7 @@ func (p *SexpHash) CloneFrom(src *SexpHash) {
 	p.TypeName = src.TypeName
 	p.Map = *(src.CopyMap())
 
-	p.KeyOrder = src.KeyOrder
+	p.KeyOrder = append([]Sexp(nil), src.KeyOrder...)
 	p.GoStructFactory = src.GoStructFactory
 	p.NumKeys = src.NumKeys
 	p.GoMethods = src.GoMethods
